@@ -701,6 +701,7 @@ def rules_c02(ctx, rep):
     rule_error_action(ctx, rep, cfgs)
     rule_graph(ctx, rep, cfgs, want=('G6b',))
     rule_transitions(ctx, rep, cfgs, want=('G2',))
+    rule_expect_late(ctx, rep, cfgs)
     rule_shape_coverage(ctx, rep, cfgs)
     controls(ctx, rep, ['G6a', 'G2'])
 
@@ -922,3 +923,25 @@ def rule_must_reject(ctx, rep, cfgs, groups, floor):
                 rep.viol(rid, 'accepted:%s:%s:%s' % (d.backend, d.module, d.self_ty), 'definition %s::%s must be rejected (%s) but the derive generates a lexer for it' % (d.module, d.self_ty, g.replace('_', ' ')), 'corpus/src/rejects.rs')
         if not seen:
             rep.anchor(rid, 'corpus rejects::{%s} under %s' % (','.join(groups), cfg), False)
+
+
+def rule_expect_late(ctx, rep, cfgs):
+    rid = rep.rule('G16', 'look-ahead is honoured: in the corpus definitions whose every pattern ends in a look-ahead assertion (lookaround::expect_late) no state records a match before the byte that confirms it has been read (all records are late)', floor=3)
+    for cfg in cfgs:
+        n = 0
+        for d, m, sm in models(ctx, cfg):
+            if d.label != 'corpus' or d.module != 'lookaround::expect_late':
+                continue
+            n += 1
+            if d.rejected or m is None:
+                rep.viol(rid, 'expect-late-unanalysable:%s:%s' % (d.backend, d.self_ty), 'definition %s is rejected or not analysable' % d.name, d.name)
+                continue
+            early = [k for k, s in sm.items() if s.record and s.record[1] == 'early']
+            late = [k for k, s in sm.items() if s.record and s.record[1] == 'late']
+            rep.inst(rid, '%s:%s' % (cfg, d.self_ty), detail=dict(early=len(early), late=len(late)))
+            if early:
+                rep.viol(rid, 'early-before-lookahead:%s:%s' % (d.backend, d.self_ty), '%s: state(s) %s record a match before the look-ahead byte has been read: a token is emitted although the assertion may fail (e.g. `let` accepted in `letx`)' % (d.name, ['state%d' % k for k in early[:4]]), d.name)
+            if not late:
+                rep.viol(rid, 'no-late-record:%s:%s' % (d.backend, d.self_ty), '%s has no late record at all' % d.name, d.name)
+        if not n:
+            rep.anchor(rid, 'corpus lookaround::expect_late under %s' % cfg, False)
